@@ -21,6 +21,7 @@
  *                                          4 = ON_KEY (tickit_term_emit_key / input_push_bytes on the terminal -> on_term_key -> _handle_key),
  *                                          5 = ON_MOUSE (tickit_term_emit_mouse -> on_term_mouse -> _handle_mouse)
  *   destroy                           unref to zero (twin: the root window is released first; win: the root window, then the terminal)
+ *   rootclose                         (win) tickit_window_close of the owner: a closed window keeps its bindings until it is destroyed
  *   rootnew | rootref | rootunref | rootclose    (twin) tickit_window_new_root(tt) [takes three slots the harness knows no identifier of],
  *                                     tickit_window_ref / _unref / _close of that root window; no handler of the user may be called by these
  *   pen <code>                        (pen owner) an operation on the pen that may emit ON_CHANGE, also as action p:<code>:
@@ -352,5 +353,6 @@ static void engine_op(int argc, char **argv)
   else if(strcmp(op, "destroy") == 0 && argc == 1)  do_destroy();
   else if(strcmp(op, "pen") == 0 && argc == 2)      do_pen(argv[1]);
   else if(owner_kind == 3 && argc == 1 && strncmp(op, "root", 4) == 0) do_root(op);
+  else if(owner_kind == 4 && argc == 1 && strcmp(op, "rootclose") == 0) tickit_window_close(root);   /* the owner window is closed (its bindings stay) */
   else { h_olen = 0; obs("bad-op"); }
 }
